@@ -173,6 +173,7 @@ func Gen(caseID, tier string) (json.RawMessage, error) {
 	p.KvnoInReply = r.Chance(1, 2)
 	p.TktEtype = r.PickInt(0, 18, 17, 20, 23)
 	p.ExpiryGraceS = int64(r.PickInt(0, 300))
+	p.FASTNegotiation = r.Chance(1, 2)
 	p.TerseErrors = r.Chance(1, 4)
 	if r.Chance(1, 4) {
 		p.ErrorSName = r.Pick("empty", "krbtgt")
